@@ -194,7 +194,7 @@ func (e *intEval) eval(v ssa.Value, env map[*ssa.Parameter]ival) ival {
 			if _, f, _, ok := loadedField(x); ok && f == "id" {
 				return ival{0, e.mtb - 1}
 			}
-			if g, ok := x.X.(*ssa.Global); ok && g.Name() == "layoutChunkSize" {
+			if g, ok := x.X.(*ssa.Global); ok && cname(g) == "layoutChunkSize" {
 				return ival{16, 16}
 			}
 		}
